@@ -137,4 +137,38 @@ def missingVariants (variants : List String) (isOption : Bool) (arms : List Pat)
   if arms.any (fun p => p == .wildcard || p == .binding) then []
   else variants.filter fun v => !(coveredNames isOption arms).contains v
 
+/-! ### Call arguments (`validate_method_call_args`, check_expr/access.rs) -/
+
+/-- An argument as written: `value` or `name=value`, with the type the checker computed for the value. -/
+structure CArg where
+  name : Option String
+  ty : String
+deriving Repr, DecidableEq
+
+/-- The positional arguments, each with its index in the argument list (the `positional` vector). -/
+def positionals : List CArg → Nat → List (Nat × String)
+  | [], _ => []
+  | a :: rest, i => match a.name with
+    | none => (i, a.ty) :: positionals rest (i + 1)
+    | some _ => positionals rest (i + 1)
+
+/-- The `named` map: the last argument written with that name wins (`HashMap::insert`). -/
+def findNamed (n : String) : List CArg → Nat → Option (Nat × String)
+  | [], _ => none
+  | a :: rest, i => match findNamed n rest (i + 1) with
+    | some r => some r
+    | none => if a.name = some n then some (i, a.ty) else none
+
+/-- The loop over the parameters: a parameter takes the argument named after it, else the next positional one;
+`ok actual expected` is `types_compatible`, or trait adoption when `expected` is a trait.  The result is the list
+of argument indices a `type_mismatch` is reported on.  (Arity is not checked by this function.) -/
+def validateArgs (ok : String → String → Bool) (args : List CArg) : List (String × String) → Nat → List Nat
+  | [], _ => []
+  | (pn, pt) :: ps, k =>
+    match findNamed pn args 0 with
+    | some (i, aty) => (if ok aty pt then [] else [i]) ++ validateArgs ok args ps k
+    | none => match (positionals args 0)[k]? with
+      | some (i, aty) => (if ok aty pt then [] else [i]) ++ validateArgs ok args ps (k + 1)
+      | none => validateArgs ok args ps k
+
 end Incan.Checker
